@@ -5,7 +5,7 @@
    these footprints.  Statements only; proofs in Mem/StringProofs.v, Mem/BufferHistory.v.          *)
 From Coq Require Import NArith List Lia.
 From ST Require Import Base.Outcome Mem.Heap Mem.Buffer Mem.BufferRun Mem.BufferInv Mem.BufferSteps
-  Mem.BufferHistory Mem.StringOps Mem.StringProofs Gen.Consts.
+  Mem.BufferHistory Mem.StringOps Mem.StringProofs Mem.ApiCoverage Gen.Consts Gen.Statics.
 Import ListNotations.
 
 (* a const member / free function (observer, or any operation producing a new string by NRVO, through a
@@ -63,6 +63,12 @@ Theorem c04_all_sequences : forall L, 1 <= L -> forall ts st s,
   Inv L (snd (run_tops L ts st)) /\ Rel (snd (run_tops L ts st)) (fold_left spec_top ts s).
 Proof. exact tops_ok. Qed.
 Print Assumptions c04_all_sequences.
+
+(* "any const member": every public const member of ST::string found in the headers' AST on this run is
+   exercised by the correspondence harness on an observed source (a new one upstream breaks this obligation) *)
+Theorem c04_routes_covered : routes_covered_b = true /\ Nat.leb 40 (length string_const_members) = true.
+Proof. exact (conj routes_covered inventory_nonempty). Qed.
+Print Assumptions c04_routes_covered.
 
 (* non-vacuity: self-referential calls (s = s, s += s, s.replace(s, s)) and whole-string results satisfy
    the preconditions; the model computes what the spec says *)
